@@ -38,6 +38,16 @@ class C17Rt(std.Record[C17W]):
     q: Bit
 
 
+class C17Hdr(std.Record[C17W]):
+    valid: Bit
+    tag: Unsigned[C17W]
+
+
+class C17Pkt(C17Hdr):
+    data: Signed[C17W]
+    last: Bit
+
+
 class C17E(std.Enum[Unsigned[2]]):
     e0 = 0
     e1 = 1
@@ -112,6 +122,9 @@ TYPES = [
     ("C17R3", 5, [(".a", 0, BIT), (".b", 1, U(2)), (".c", 3, S(2))]),
     ("C17Rt[2]", 3, [(".p", 0, BV(2)), (".q", 2, BIT)]),
     ("C17Rt[4]", 5, [(".p", 0, BV(4)), (".q", 4, BIT)]),
+    ("C17Hdr[2]", 3, [(".valid", 0, BIT), (".tag", 1, U(2))]),
+    ("C17Pkt[2]", 6, [(".valid", 0, BIT), (".tag", 1, U(2)), (".data", 3, S(2)), (".last", 5, BIT)]),
+    ("C17Pkt[3]", 8, [(".valid", 0, BIT), (".tag", 1, U(3)), (".data", 4, S(3)), (".last", 7, BIT)]),
     ("C17E", 2, [(".raw", 0, U(2))]),
     ("C17F", 3, [(".raw", 0, BV(3))]),
     ("C17Rb", 3, [(".flag", 0, Ty("bool")), (".e.raw", 1, U(2))]),
